@@ -75,7 +75,7 @@ DIMS.update({
     '--library': [None, 'mylib.cfg'],
     '--suppress': [None, 'shiftTooManyBits', 'arrayIndexOutOfBounds:s_suppr.c', 'zerodiv:inc/opt.h'],
     '--inline-suppr': [False, True],
-    '--max-configs': [None, '1', '2', '20'],
+    '--max-configs': [None, '12', '1', '2', '20'],   # '12' = the built-in default given explicitly
     '--check-level': [None, 'exhaustive'],
     '--force': [False, True],
 })
